@@ -214,7 +214,7 @@ def _markers_from_inferred(expr: astroid.NodeNG, inferred: tuple) -> Iterator[To
 def _is_open_to_write(expr) -> bool:
     for arg in expr.args:
         if astroid is not None:  # pragma: no-astroid
-            if isinstance(arg, astroid.Const) and 'w' in arg.value:
+            if isinstance(arg, astroid.Const) and isinstance(arg.value, str) and 'w' in arg.value:
                 return True
         if isinstance(arg, ast.Constant) and 'w' in str(arg.value):
             return True
@@ -226,7 +226,7 @@ def _is_open_to_write(expr) -> bool:
             continue
         inner = arg.value
         if astroid is not None:  # pragma: no-astroid
-            if isinstance(inner, astroid.Const) and 'w' in inner.value:
+            if isinstance(inner, astroid.Const) and isinstance(inner.value, str) and 'w' in inner.value:
                 return True
         if isinstance(inner, ast.Constant) and 'w' in str(inner.value):
             return True
